@@ -14,12 +14,10 @@ if [ -z "$NOTESTS" ]; then
 fi
 cd /verif
 for id in "$@"; do
-  cp evidence/$id.json /tmp/ev-$id.$$ 2>/dev/null
-  SCODA_ROOT=$D ./check $id --tier ${TIER:-quick} > /tmp/mutout.$$ 2>&1; rc=$?
-  grep -E "^C[0-9]+:|MACHINERY" /tmp/mutout.$$ | cut -c1-200
-  grep -E "VIOLATION" /tmp/mutout.$$ | sed 's/replay=[^ ]* //' | sort | uniq -c | sort -rn | head -4
+  SCODA_ROOT=$D VERIF_EVIDENCE_DIR=$D/.verif-evidence ./check $id --tier ${TIER:-quick} > /tmp/mutout.$$.$id 2>&1; rc=$?
+  grep -E "^C[0-9]+:|MACHINERY" /tmp/mutout.$$.$id | cut -c1-200
+  grep -E "VIOLATION" /tmp/mutout.$$.$id | sed 's/replay=[^ ]* //' | sort | uniq -c | sort -rn | head -4
   echo "check $id exit=$rc"
-  mv /tmp/ev-$id.$$ evidence/$id.json 2>/dev/null
+  rm -f /tmp/mutout.$$.$id
 done
-rm -f /tmp/mutout.$$
 git -C /repo worktree remove --force "$D"; rm -rf "$D"
